@@ -458,8 +458,11 @@ func (router_info RouterInfo) Network() string {
 }
 
 // AddAddress adds a RouterAddress to this RouterInfo and updates the size field.
-// Returns an error if the address count would exceed 255 (max for 1-byte Integer).
+// Returns an error if the address is nil or the address count would exceed 255 (max for 1-byte Integer).
 func (router_info *RouterInfo) AddAddress(address *router_address.RouterAddress) error {
+	if address == nil {
+		return oops.Errorf("cannot add address: address is nil")
+	}
 	newCount := len(router_info.addresses) + 1
 	newSize, err := data.NewIntegerFromInt(newCount, 1)
 	if err != nil {
